@@ -89,6 +89,57 @@ def summarize(f, path, with_self=True):
         if self_ptr is not None:
             final = show(norm(it.resolve(s, s.heap[self_ptr[1]])))
         outs.append((tuple(sorted(set(norm_cond(c) for c in s.conds))), LABEL.sub("'*'", show(norm(it.resolve(s, rv)))), final))
+    # a crate-private single-field wrapper around a collection (`struct Elements(Vec<Value>)`) is that collection
+    wrappers = {}
+    serde_selfs = set((b_.get("impl") or {}).get("self_s") for b_ in f.bodies.values() if (b_.get("impl") or {}).get("trait", "").startswith("serde::"))
+    for ap, a_ in f.adts.items():
+        if a_.get("local") and a_["kind"] == "struct" and ap.startswith("value::ser::") and ap not in serde_selfs and len(a_["variants"][0]["fields"]) == 1:
+            wrappers[ap] = ap.split("::")[-1]
+    if wrappers:
+        self_adt = f.adts.get(((b.get("impl") or {}).get("self_s") or "").split("<")[0])
+        wrapped_fields = []
+        if self_adt and self_adt["kind"] == "struct":
+            for i_, fl in enumerate(self_adt["variants"][0]["fields"]):
+                if fl.get("ty") is not None and f.adt_of(f.peel(fl["ty"])) in wrappers:
+                    wrapped_fields.append(i_)
+
+        def unwrap(x):
+            if not isinstance(x, str):
+                return x
+            for i_ in wrapped_fields:
+                x = re.sub(r"\bself\.%d\.0\b" % i_, "self.%d" % i_, x)
+            for i_ in wrapped_fields:
+                # updating the wrapper's only field is updating the wrapped collection
+                head = "with_field(self.%d, 0, " % i_
+                while head in x:
+                    a0 = x.index(head)
+                    depth, j = 0, a0 + len("with_field")
+                    while j < len(x):
+                        if x[j] == "(":
+                            depth += 1
+                        elif x[j] == ")":
+                            depth -= 1
+                            if depth == 0:
+                                break
+                        j += 1
+                    x = x[:a0] + x[a0 + len(head):j] + x[j + 1:]
+            for w in wrappers.values():
+                while True:
+                    m_ = re.search(r"(?<![\w:])%s\(" % re.escape(w), x)
+                    if not m_:
+                        break
+                    depth, j = 0, m_.end() - 1
+                    while j < len(x):
+                        if x[j] == "(":
+                            depth += 1
+                        elif x[j] == ")":
+                            depth -= 1
+                            if depth == 0:
+                                break
+                        j += 1
+                    x = x[:m_.start()] + x[m_.end():j] + x[j + 1:]
+            return x
+        outs = [(tuple((unwrap(a_), b__) for a_, b__ in c_), unwrap(r_), unwrap(fin_)) for c_, r_, fin_ in outs]
     # ValueSerializer is a unit struct: inside its own methods `self` and a fresh `ValueSerializer` are the same value
     if (b.get("impl") or {}).get("self_s", "").endswith("ValueSerializer"):
         unit = lambda x: re.sub(r"(?<=, )ValueSerializer(?=[,)])|(?<=\()ValueSerializer(?=[,)])", "self", x) if isinstance(x, str) else x
@@ -100,10 +151,13 @@ def run(res, f, tier):
     ser_bodies = {}
     for d, b in f.bodies.items():
         im = b.get("impl") or {}
-        if b["kind"] == "AssocFn" and im.get("trait", "").startswith("serde::") and im["self_s"].startswith("value::ser::"):
+        if b["kind"] == "AssocFn" and im.get("trait", "").startswith("serde::") and im["self_s"].split("<")[0] in f.adts and f.adts[im["self_s"].split("<")[0]].get("local") \
+                and im["self_s"].startswith("value::"):
             ser_bodies[(im["self_s"].split("::")[-1], im["trait"].split("::")[-1], b["name"])] = d
     custom = [d for d, b in f.bodies.items() if b["name"] == "custom" and (b.get("impl") or {}).get("trait") == "serde::ser::Error"]
-    helpers = [d for d, b in f.bodies.items() if b["name"] in ("not_a_string",) and d.startswith("value::ser")]
+    # crate-local functions the serializer methods call (free helpers next to them)
+    helpers = [d for d in evalsum.reachable_local(f, sorted(ser_bodies.values())) if d not in ser_bodies.values() and d.startswith("value::")
+               and not f.bodies[d].get("parent") and not (f.bodies[d].get("impl") or {}).get("trait")]
     vs_methods = {k[2]: d for k, d in ser_bodies.items() if k[0] == "ValueSerializer" and k[1] == "Serializer"}
     ss_methods = {k[2]: d for k, d in ser_bodies.items() if k[0] == "StringSerializer" and k[1] == "Serializer"}
     res.floor("Serializer methods of ValueSerializer", len(vs_methods), 30)
